@@ -443,4 +443,50 @@ theorem plainServer_spec (perm : Bytes → Bytes → Bytes → Bool) (d : Bytes)
     · left; exact ⟨i, u, p, rfl, hp, by simp [hp]⟩
   | _ :: _ :: _ :: _ :: _ => simp
 
+/-! ### panics below `Step` and what an implementation does with them -/
+
+theorem guard_kind (pol : PanicVal → Bool) (m : Mech) (h : List Bytes) :
+    (guard pol m h).kind = (m h).kind := by
+  unfold guard
+  split
+  · split <;> rfl
+  · rfl
+
+theorem guard_resp (pol : PanicVal → Bool) (m : Mech) (h : List Bytes) :
+    (guard pol m h).resp = (m h).resp := by
+  unfold guard
+  split
+  · split <;> rfl
+  · rfl
+
+theorem guard_perms (pol : PanicVal → Bool) (m : Mech) (h : List Bytes) :
+    (guard pol m h).perms = (m h).perms := by
+  unfold guard
+  split
+  · split <;> rfl
+  · rfl
+
+/-- recovering panics (or not) changes nothing about which runs complete -/
+theorem RunsToDone_guard (pol : PanicVal → Bool) (m : Mech) : ∀ (ext : List Bytes) (hist : List Bytes),
+    RunsToDone (guard pol m) hist ext ↔ RunsToDone m hist ext := by
+  intro ext
+  induction ext with
+  | nil => intro hist; simp [RunsToDone, guard_kind]
+  | cons c cs ih => intro hist; simp [RunsToDone, guard_kind, ih]
+
+theorem lookup_guardCfg (pol : PanicVal → Bool) (cfg : List (String × Mech)) (name : String) :
+    lookup (guardCfg pol cfg) name = (lookup cfg name).map fun nm => (nm.1, guard pol nm.2) := by
+  simp [lookup, guardCfg, List.find?_map, Function.comp_def]
+
+theorem select_guardCfg (pol : PanicVal → Bool) (cm : List (String × Mech)) (adv : List String) :
+    select (guardCfg pol cm) adv = (select cm adv).map fun nm => (nm.1, guard pol nm.2) := by
+  simp [select, guardCfg, List.find?_map, Function.comp_def]
+
+theorem plainServerPanics_kind (v : PanicVal) (h : List Bytes) :
+    (plainServerPanics v h).kind = .otherErr := by
+  unfold plainServerPanics
+  split
+  · split <;> rfl
+  · rfl
+
 end XmppModel.Sasl
